@@ -336,7 +336,6 @@ func headerName(e ast.Expr) string {
 	return "unknownShape:" + nsrc(e)
 }
 
-func factsCompress()   {}
 func factsServer()     {}
 func factsMain()       {}
 
@@ -665,4 +664,108 @@ func factsCache() {
 	}
 	defStr("getShape", shape)
 	defBool("waiterRereadsEntry", reread)
+}
+
+// ---------------------------------------------------------------- compress/*.go
+func factsCompress() {
+	section("compress/gzip.go, compress/brotli.go, compress/lz4.go")
+	clamp := func(rel, fn, name string, names map[string]string) {
+		f := parse(rel)
+		fd := funcDecl(f, "", fn)
+		if fd == nil {
+			fmt.Fprintf(&out, "def %s_shape : String := \"unknownShape:%s\"\ndef %s (level : Int) : Int := default\n", name, fn, name)
+			return
+		}
+		// the clamp is the `if` statement that assigns `level`
+		var stmts []ast.Stmt
+		for _, st := range fd.Body.List {
+			if is, ok := st.(*ast.IfStmt); ok {
+				vs := map[string]bool{}
+				assignedVars([]ast.Stmt{is}, vs)
+				if vs["level"] && len(vs) == 1 {
+					stmts = append(stmts, st)
+				}
+			}
+		}
+		out.WriteString(transFunc(name, "(level : Int)", names, stmts, func(ast.Stmt) bool { return false }, "Int", "level"))
+		// writer finalised before the bytes are read: Close is deferred inside fn, and fn itself
+		// never reads the buffer (the caller does, after fn returned)
+		deferred, readsInside := false, false
+		ast.Inspect(fd.Body, func(n ast.Node) bool {
+			switch x := n.(type) {
+			case *ast.DeferStmt:
+				if nsrc(x.Call) == "w.Close()" {
+					deferred = true
+				}
+			case *ast.CallExpr:
+				if nsrc(x.Fun) == "buffer.Bytes" || nsrc(x.Fun) == "buffer.String" {
+					readsInside = true
+				}
+			}
+			return true
+		})
+		defBool(name+"_closeDeferred", deferred)
+		defBool(name+"_readsBufferBeforeClose", readsInside)
+	}
+	brq := 6
+	if v, ok := constInt(parse("compress/brotli.go"), "defaultBrQuality"); ok {
+		brq = v
+	} else {
+		brq = -999
+	}
+	clamp("compress/gzip.go", "gzipFn", "gzipLevel", map[string]string{"gzip.BestCompression": "9", "gzip.DefaultCompression": "(-1)", "gzip.BestSpeed": "1", "gzip.NoCompression": "0"})
+	clamp("compress/brotli.go", "brotliEncode", "brotliLevel", map[string]string{"defaultBrQuality": fmt.Sprint(brq), "brotli.BestCompression": "11", "brotli.DefaultCompression": "6", "brotli.BestSpeed": "0"})
+	// callers read the buffer after the encoder function returned
+	callerReads := func(rel, caller, callee string) bool {
+		fd := funcDecl(parse(rel), "", caller)
+		if fd == nil {
+			return false
+		}
+		sawCall, readsAfter := false, false
+		ast.Inspect(fd.Body, func(n ast.Node) bool {
+			if c, ok := n.(*ast.CallExpr); ok {
+				if nsrc(c.Fun) == callee {
+					sawCall = true
+				}
+				if nsrc(c.Fun) == "buffer.Bytes" && sawCall {
+					readsAfter = true
+				}
+			}
+			return true
+		})
+		return readsAfter
+	}
+	defBool("gzipCallerReadsAfter", callerReads("compress/gzip.go", "doGzip", "gzipFn"))
+	defBool("brotliCallerReadsAfter", callerReads("compress/brotli.go", "doBrotli", "brotliEncode"))
+	// lz4: initial destination factor, maximum, growth
+	lf := parse("compress/lz4.go")
+	initF, maxR, grows := -1, -1, false
+	if v, ok := constInt(lf, "lz4MaxRatio"); ok {
+		maxR = v
+	}
+	if fd := funcDecl(lf, "", "doLZ4Decode"); fd != nil {
+		ast.Inspect(fd.Body, func(n ast.Node) bool {
+			switch x := n.(type) {
+			case *ast.AssignStmt:
+				t := nsrc(x)
+				if strings.HasPrefix(t, "size:=") && strings.HasSuffix(t, "*len(buf)") {
+					if v, err := strconv.Atoi(strings.TrimSuffix(strings.TrimPrefix(t, "size:="), "*len(buf)")); err == nil {
+						initF = v
+					}
+				}
+				if strings.HasPrefix(t, "dst:=make([]byte,") && strings.HasSuffix(t, "*len(buf))") {
+					if v, err := strconv.Atoi(strings.TrimSuffix(strings.TrimPrefix(t, "dst:=make([]byte,"), "*len(buf))")); err == nil {
+						initF = v
+					}
+				}
+				if t == "size*=4" || t == "size*=2" || t == "size=maxSize" {
+					grows = true
+				}
+			}
+			return true
+		})
+	}
+	defInt("lz4InitialFactor", initF)
+	defInt("lz4MaxRatio", maxR)
+	defBool("lz4Grows", grows)
 }
